@@ -814,6 +814,24 @@ func runC08(c *Ctx) {
 }
 
 var plyHeaderVariants = []string{
+	// ASCII number texts at the edges of strconv.ParseFloat(s, 32): the nearest double is an exact float32 half-way value
+	// but the text is not (rounded ONCE: up / down), the exact half-way text (ties to even), half the smallest subnormal,
+	// the overflow edge (largest text that still rounds to MaxFloat32, the first that is "out of range": an error)
+	// (every ASCII reader kind: 3-vector x y z, 2-vector s t, 4-vector rot_*, scalars of type double / int)
+	"ply\nformat ascii 1.0\nelement vertex 6\nproperty float x\nproperty float y\nproperty float z\nproperty double s\nproperty double t\n" +
+		"property float rot_0\nproperty float rot_1\nproperty float rot_2\nproperty float rot_3\nproperty double w\nproperty int k\nend_header\n" +
+		"1.0000000596046448 1.000000059604644775390625 7.0064923216240854e-46 3.4028235677973366e38 16777217 0.1 1.0000000596046447 -1.0000000596046448 7.0064923216240853e-46 340282346638528859811704183484516925440 16777217\n" +
+		"-1.0000000596046448 7.0064923216240853e-46 340282346638528859811704183484516925440 16777219 1.0000000596046448 1.000000059604644775390625 7.0064923216240854e-46 3.4028235677973366e38 16777217 0.1 16777219\n" +
+		"3.4028235677973366e38 16777217 0.1 1.0000000596046447 -1.0000000596046448 7.0064923216240853e-46 340282346638528859811704183484516925440 16777219 1.0000000596046448 1.000000059604644775390625 16777221\n" +
+		"16777219 1.0000000596046448 1.000000059604644775390625 7.0064923216240854e-46 3.4028235677973366e38 16777217 0.1 1.0000000596046447 -1.0000000596046448 7.0064923216240853e-46 16777223\n" +
+		"1.0000000596046447 -1.0000000596046448 7.0064923216240853e-46 340282346638528859811704183484516925440 16777219 1.0000000596046448 1.000000059604644775390625 7.0064923216240854e-46 3.4028235677973366e38 16777217 16777225\n" +
+		"7.0064923216240854e-46 3.4028235677973366e38 16777217 0.1 1.0000000596046447 -1.0000000596046448 7.0064923216240853e-46 340282346638528859811704183484516925440 16777219 1.0000000596046448 16777227\n",
+	// the ASCII list reader parses texture coordinates with bit size 64 (a `float` list keeps double precision in ASCII)
+	"ply\nformat ascii 1.0\nelement vertex 3\nproperty float x\nproperty float y\nproperty float z\nelement face 1\nproperty list uchar int vertex_indices\n" +
+		"property list uchar float texcoord\nend_header\n0 0 0\n1 0 0\n0 1 0\n3 0 1 2 6 0.1 0.2 0.3 1.0000000596046448 0.7 1e-46\n",
+	"ply\nformat ascii 1.0\nelement vertex 1\nproperty float x\nend_header\n3.4028235677973367e38\n",
+	"ply\nformat ascii 1.0\nelement vertex 1\nproperty double x\nend_header\n1e39\n",
+	"ply\nformat ascii 1.0\nelement vertex 1\nproperty float x\nend_header\n-340282356779733661637539395458142568448\n",
 	// foreign-tool shapes: unknown elements before / after vertex, list property inside vertex, tabs and runs of blanks,
 	// upper-case keywords, obj_info between properties, blank lines, CR-only noise, count forms
 	"ply\nformat binary_little_endian 1.0\nelement material 0\nproperty uchar r\nelement vertex 1\nproperty float x\nelement edge 0\nproperty int v1\nend_header\n\x00\x00\x80\x3f",
